@@ -204,6 +204,22 @@ def _either(tag, o):
     return ("Some", ("ctor", "Either::" + tag, (("0", o[1]),))) if o != ("None",) else o
 
 
+SPEC_TAGS = {}      # tag of a two-variant result type of Files::specification other than Either -> the Either side it stands for
+
+
+def _role_tag(v):
+    """Files::specification may answer with a type of its own instead of Either: the variant that carries a program file stands for Left, the
+    one that carries a specification file for Right (fixed at the first answer that shows it; an inconsistent use shows as a wrong tag later)"""
+    if isinstance(v, tuple) and v[:1] == ("Some",) and isinstance(v[1], tuple) and v[1][:1] == ("ctor",) and not v[1][1].startswith("Either::") and len(v[1][2]) == 1:
+        tag, payload = v[1][1], v[1][2][0][1]
+        side = "Either::Left" if str(payload).startswith("programs[") else ("Either::Right" if str(payload).startswith("specifications[") else None)
+        if side is not None and tag not in SPEC_TAGS and side not in SPEC_TAGS.values():
+            SPEC_TAGS[tag] = side
+        if tag in SPEC_TAGS:
+            return ("Some", ("ctor", SPEC_TAGS[tag], v[1][2]))
+    return v
+
+
 # the role table: which file (bucket, position) each accessor yields, as a function of the bucket contents
 REF_ACC = {
     "left": lambda b: _first(b["programs"]),
@@ -237,6 +253,8 @@ def rule_accessors(ctx):
                     env[("fieldof", ("param", "self"), bk)] = l
                 got = absval.evaluate(term, env)
                 n += 1
+                if name == "specification":
+                    got = _role_tag(got)
                 if got != ref(buckets):
                     bad = (dict(zip(BUCKETS, lens)), got, ref(buckets))
                     break
@@ -347,6 +365,14 @@ def rule_flow_roles(ctx):
                             pk = pk[len("Option::Some("):-1]
                         rows.append((pk, _either_tag(fx, a), sorted(parser_types(body))))
                     detail.append(rows)
+                    if not SPEC_TAGS and not any(pk_.startswith("Either::") for pk_, _, _ in rows):
+                        try:
+                            rule_accessors(type(ctx)(ctx.prop, ctx.tier, ctx.facts))      # fixes the tags (this rule may run embedded in another property)
+                        except Exception:
+                            pass
+                    if SPEC_TAGS and not any(pk_.startswith("Either::") for pk_, _, _ in rows):
+                        # the accessor's own result type: its tags stand for the Either sides the accessor table (TAB-ACC:specification) fixed
+                        rows = [(SPEC_TAGS.get(pk_.split("(")[0], pk_.split("(")[0]) + "(_)" if pk_.endswith("(_)") else pk_, t_, ps_) for pk_, t_, ps_ in rows]
                     if sorted(rows) == sorted([("Either::Left(_)", "Left", ["Program"]), ("Either::Right(_)", "Right", ["Specification"])]):
                         ok = True
                 ctx.add("FLOW-ROLE", "specification:either-tags", ok, site,
